@@ -310,8 +310,29 @@ func RunC19(r *core.Run) {
 				return
 			}
 		}
+		// first Via: only the branch parameter counts; other Via parameters may change freely,
+		// also when the branch has no value
+		{
+			br := []string{";branch=z9hG4bK" + string(rr.Bytes(rr.Range(1, 12), []byte("abcdef0123456789-.+"))), ";branch", ";branch=", ";branch=1.2.3.4", ""}[rr.Intn(5)]
+			mk := func(other string) []byte {
+				out := append([]byte(nil), buf[:m.FLEnd]...)
+				out = append(out, ("Via: SIP/2.0/UDP host.example" + other + br + "\r\n")...)
+				return append(out, buf[m.FLEnd:]...)
+			}
+			v1 := mk([]string{";received=192.0.2.1", ";rport=5060;received=10.0.0.1", ";ttl=1"}[rr.Intn(3)])
+			v2 := mk([]string{";received=abc-def_x", ";maddr=h+h/x;rport", ";x=\"q.r:s\""}[rr.Intn(3)])
+			g1, g2 := sigOf(v1, nh+3, []int{len(v1)}), sigOf(v2, nh+3, []int{len(v2)})
+			w.Eval(2)
+			if g1.pan == "" && g2.pan == "" && g1.pe == sipsp.ErrHdrOk && g2.pe == sipsp.ErrHdrOk {
+				if g1.err != g2.err || g1.sig != g2.sig {
+					fail("via-other-params", fmt.Sprintf("two requests that differ only in non-branch parameters of the first Via (branch part %q): signatures %q / %q", br, g1.sig.String(), g2.sig.String()), v2)
+					return
+				}
+				w.Inc("via_param_pairs")
+			}
+		}
 		// reply: no signature
-		rep := append([]byte("SIP/2.0 200 OK\r\n"), buf[m.FLEnd:]...)
+		rep := append([]byte([]string{"SIP/2.0 200 OK\r\n", "sip/2.0 200 OK\r\n", "Sip/2.0 486 Busy\r\n", "SIP/2.0 000 \r\n"}[rr.Intn(4)]), buf[m.FLEnd:]...)
 		if g := sigOf(rep, nh+2, []int{len(rep)}); g.pan == "" && g.pe == sipsp.ErrHdrOk {
 			w.Eval(1)
 			if g.err != sipsp.ErrHdrEmpty {
